@@ -1,6 +1,7 @@
 package main
 
 import (
+	"strings"
 	"go/ast"
 	"go/token"
 	"go/types"
@@ -274,6 +275,43 @@ func runC32(c *Ctx) {
 			return true
 		})
 		c.Check(okLoop, "relocate/share-i→peer-i-1", "share 0 stays with the leader; share i (i ≥ 1) is sent to peers[i-1]", c.P.Pos(rl.Decl.Pos()), "peer loop shape changed")
+	})
+
+	c.Rule("peers-list-not-mutated", func() {
+		// the peers list maps share index to target for the whole relocation and is read by every concurrent share task:
+		// helpers that derive lists from it (survivors, eligible targets) must build fresh slices and never write through it
+		c.P.BuildSSA()
+		eng := newPureEngine(c)
+		n := 0
+		for _, name := range []string{"survivingPeersExcept"} {
+			fn := c.Func("actor", name)
+			sf := c.SSA(fn)
+			params := map[int]bool{}
+			for i, p := range sf.Params {
+				if _, isSlice := p.Type().Underlying().(*types.Slice); isSlice {
+					params[i] = true
+				}
+			}
+			n++
+			_, all, _ := eng.analyse(sf, params, true)
+			var findings []pureFinding
+			for _, fd := range all {
+				// element pointers (*cluster.Peer) are meant to be shared; only the list itself must be fresh
+				if strings.Contains(fd.what, "stored into the result") || strings.Contains(fd.what, "placed into the result") {
+					continue
+				}
+				findings = append(findings, fd)
+			}
+			if len(findings) == 0 {
+				c.Ok("fresh/"+name, "the derived list is a fresh slice: the input list is neither written through nor re-used as backing store", c.P.Pos(fn.Decl.Pos()))
+			}
+			for _, fd := range findings {
+				c.Bad("fresh/"+name, "a list derived from the peers list is a fresh slice (the peers list is shared by the dispatch loop and by every concurrent share task)", c.P.Pos(fd.pos), fd.what)
+			}
+		}
+		if n == 0 {
+			c.Undecided("fresh/sites", "list-deriving helpers found", "-", "none")
+		}
 	})
 
 	c.Rule("filters", func() {
